@@ -71,6 +71,7 @@ class GetTypenameValues(Contract):
     props = ("C01", "C05")
     target = TARGET
     frame_args = False
+    use_at_calls = False          # _parse_field_selection_set_types has its own stand-in for this call
     trusted = ["graphql-core: schema.get_possible_types(abstract type) is a list of object types (uninterpreted); is_abstract_type = interface or union; "
                "the type map binds every name to a type of that name",
                "next(filter(p, xs), None) is read as: some element of xs that satisfies p, None when no element does",
@@ -126,6 +127,62 @@ class GetTypenameValues(Contract):
                     z3.Implies(z3.And(is_key, V.vcontains(lst, T)), z3.Or(T == W, z3.And(CS.is_abstract(own), V.vcontains(possible, T), z3.Not(V.vcontains(names, T))))),
                 "class-of-the-abstract-type-accepts-every-possible-type-without-a-class":
                     z3.Implies(z3.And(is_key, CS.is_abstract(own), only_abstract, V.vcontains(possible, T), z3.Not(V.vcontains(names, T))), V.vcontains(lst, T))}
+
+
+    def replay_custom(self, inputs):
+        return replay_typename_values()
+
+    def samples(self, tier):
+        return [dict(case="interfaces, unions, concrete types")]
+
+
+def replay_typename_values():
+    """native cross-check on a real schema: every choice of related classes over an interface, a union and object types"""
+    import itertools
+    schema = G.build_schema("""
+        interface Node { id: ID }
+        type A implements Node { id: ID }  type B implements Node { id: ID }  type C implements Node { id: ID }  type D { id: ID }
+        union U = A | B | D
+        type Query { n: Node u: U d: D }
+    """)
+    g = RT.ResultTypesGenerator.__new__(RT.ResultTypesGenerator)
+    g.schema = schema
+    rep = dict(inputs={"schema": "interface Node (A, B, C), union U (A, B, D)", "related": "the abstract type with every subset of its members; concrete types alone"},
+               failed=[], undetermined=[], pre_ok=True, outcome={}, error=None)
+    cases = [["D"], ["A"], ["A", "B"]]
+    for abstract, members in (("Node", ["A", "B", "C"]), ("U", ["A", "B", "D"])):
+        for n in range(len(members) + 1):
+            for sub in itertools.permutations(members, n):
+                cases.append([abstract] + list(sub))
+        cases.append([members[0], abstract])
+    for names in cases:
+        fc = RF.FieldContext(definitions=[], related_classes=[RF.RelatedClassData(class_name="Cls" + n, type_name=n) for n in names])
+        try:
+            got = g._get_typename_values(fc)
+        except Exception as e:   # noqa
+            rep["failed"].append("no exception may escape")
+            rep["outcome"][str(names)] = repr(e)
+            continue
+        bad = []
+        if set(got) != set(names):
+            bad.append("post.keys-are-the-related-type-names")
+        for k, lst in got.items():
+            t = schema.type_map[k]
+            if not isinstance(lst, list) or lst[:1] != [k]:
+                bad.append("post.every-list-starts-with-its-own-key")
+            if not G.is_abstract_type(t) and lst != [k]:
+                bad.append("post.class-of-a-concrete-type-accepts-exactly-its-own-name")
+            if G.is_abstract_type(t):
+                want = {p.name for p in schema.get_possible_types(t)} - set(names)
+                if set(lst[1:]) - want - {k}:
+                    bad.append("post.only-its-own-name-and-possible-types-without-a-class-are-accepted")
+                if want - set(lst):
+                    bad.append("post.class-of-the-abstract-type-accepts-every-possible-type-without-a-class")
+        if bad:
+            rep["failed"] += bad
+            rep["outcome"][str(names)] = {k: v for k, v in got.items()}
+    rep["failed"] = sorted(set(rep["failed"]))
+    return rep
 
 
 CONTRACTS = [GetTypenameValues()]
